@@ -120,8 +120,11 @@ def _cphase_symbols_to_sqrt_iswap(
     # For sign = 1: theta. For sign = -1, 2pi-theta
     theta_prime = (sympy.pi - sign * sympy.pi) + sign * theta
 
-    phi = sympy.asin(np.sqrt(2) * sympy.sin(theta_prime / 4))
-    xi = sympy.atan(sympy.tan(phi) / np.sqrt(2))
+    # Clamped: sqrt(2) * sin(pi / 4) evaluates to 1.0000000000000002, which makes asin complex at theta_prime = pi.
+    sin_phi = sympy.Min(1.0, np.sqrt(2) * sympy.sin(theta_prime / 4))
+    phi = sympy.asin(sin_phi)
+    # atan(tan(phi) / sqrt(2)) without the pole of tan at phi = pi / 2
+    xi = sympy.atan2(sin_phi, np.sqrt(2) * sympy.sqrt(1 - sin_phi**2))
 
     yield ops.rz(sign * 0.5 * theta_prime).on(a)
     yield ops.rz(sign * 0.5 * theta_prime).on(b)
